@@ -28,6 +28,24 @@ def def1(b, t):
     return t
 
 
+PROVEN = "‹IdentityAnswer›.peer.verifying_key"     # the key of the peer row whose proof was verified (type-rooted path)
+
+
+def is_remote_key(b, t):
+    """the term reaches the connection's remote key cell: a variable of type Arc<Mutex<Vec<u8>>> (by type, not by name)"""
+    for x in mir.subterms(t):
+        if x[0] in ("var", "param") and len(x) > 2 and re.search(r"Arc<Mutex<Vec<u8>>>$", mir.short_type(b.locals[x[2]])):
+            return True
+        if x[0] == "upvar" and re.search(r"Arc<Mutex<Vec<u8>>>$", mir.short_type(b.upvar_type(x[1]))):
+            return True
+        if x[0] == "var" and len(x) > 2:
+            for d in b.var_defs(x):
+                for y in mir.subterms(d):
+                    if y[0] in ("var", "param") and len(y) > 2 and re.search(r"Arc<Mutex<Vec<u8>>>$", mir.short_type(b.locals[y[2]])):
+                        return True
+    return False
+
+
 def token_arm(b, bi):
     for s, vals, term in b.guards(bi):
         dv = mir.discr_variants(term, vals)
@@ -45,7 +63,7 @@ def r6(P, C):
         effects = []
         for bi, t in a.calls_to(r"(system_entities::Invite::insert|Vec::push|HashMap::insert|HashMap::entry)$"):
             s = cstr(a, bi, t)
-            if t["nf"].endswith("Invite::insert") or "allowed_token" in s or "self.invites" in s or "TokenType::Invite" in s:
+            if t["nf"].endswith("Invite::insert") or ".allowed_token" in s or ".invites" in s or "TokenType::Invite" in s:
                 effects.append((bi, t, s))
         C.floor("R6", "effects of accepting an invitation (stored row, token entry, token type, invitation list)", len(effects), 4)
         for n, (bi, t, s) in enumerate(effects):
@@ -54,8 +72,8 @@ def r6(P, C):
                 atom, truth = mir.cond_atoms(term, vals)
                 u = mir.strip(atom)
                 if u[0] == "call" and re.search(r"::eq$", u[1]) and truth is True:
-                    ops = sorted(field_path(x) for x in u[2])
-                    if len(ops) == 2 and ops[0].endswith("inv.application") and ops[1].endswith("self.app_key"):
+                    ops = sorted(a.cpath(x) for x in u[2])
+                    if ops == ["‹Invite›.application", "‹PeerManager›.app_key"]:
                         ok = True
             C.ob("R6", "accept:%s#%d" % (t["nf"].split("::")[-1], n), ok, a.loc(bi), "%s only when inv.application == self.app_key" % s[:80])
         eqs = [bi for bi, t in a.calls_to(r"::eq$") if "application" in cstr(a, bi, t)]
@@ -74,20 +92,28 @@ def r6(P, C):
     try:
         h = P.body("system_entities::Invite::hash_val")
         C.saw(h)
-        ups = [field_path(h.call_args(bi)[1]) for bi, t in h.calls_to(r"Hasher::update$")]
-        C.ob("R6", "digest-covers-application", any("application" in u for u in ups) and any("invite_id" in u for u in ups), h.loc(),
-             "the digest signed by the inviter covers invite_id and application: %s" % ups)
+        ups = [h.cpath(h.call_args(bi)[1]) for bi, t in h.calls_to(r"Hasher::update$")]
+        C.ob("R6", "digest-covers-application", "‹String›" in ups and "‹[u8; 16]›" in ups, h.loc(),
+             "the digest signed by the inviter covers the invitation id (Uid) and the application name (String): %s" % ups)
         cr = P.body("PeerManager::create_invite::{closure#0}")
         C.saw(cr)
         ic = cr.calls_to(r"system_entities::Invite::create$")
-        ok = len(ic) == 1 and "self.app_key" in term_str(cr.call_args(ic[0][0])[2])
+        ok = len(ic) == 1 and cr.cpath(cr.call_args(ic[0][0])[2]) == "‹PeerManager›.app_key"
         C.ob("R6", "created-for-own-application", ok, cr.loc(ic[0][0]) if ic else cr.loc(), "Invite::create(.., application = self.app_key, ..)")
         ci = P.body("system_entities::Invite::create::{closure#0}")
         C.saw(ci)
         hv = ci.calls_to(r"Invite::hash_val$")
         sg = ci.calls_to(r"GraphDatabaseService::sign$")
-        ok = (len(hv) == 1 and len(sg) == 1 and "application" in term_str(ci.call_args(hv[0][0])[1])
-              and "hash_val" in term_str(ci.call_args(sg[0][0], expand_vars=True)[1]))
+        # the application named by the invitation literal is the one whose name is hashed
+        app = None
+        for bi_ in ci.live_blocks():
+            for si_, st_ in enumerate(ci.blocks[bi_]["s"]):
+                rv_ = st_["rv"]
+                if rv_["r"] == "aggr" and rv_.get("adt", "").endswith("system_entities::Invite"):
+                    t_ = ci.def_term(bi_, si_, rv_, 0)
+                    app = mir.strip(t_[4][t_[5].index("application")])
+        ok = (len(hv) == 1 and len(sg) == 1 and app is not None and mir.strip(ci.call_args(hv[0][0])[1])[:3] == app[:3]
+              and mir.has_call(ci.call_args(sg[0][0], expand_vars=True)[1], r"Invite::hash_val$") is not None)
         C.ob("R6", "signed-digest-names-application", ok, ci.loc(), "the invitation signature is over hash_val(invite_id, application)")
     except mir.MissingAnchor as e:
         C.anchor_missing("R6", "Invite::hash_val / create", e)
@@ -107,21 +133,21 @@ def r7(P, C):
             same = None
             for sw, vals, term in b.guards(bi):
                 atom, truth = mir.cond_atoms(term, vals)
-                if "their_public" in term_str(atom) and "public_key" in term_str(atom):
+                if atom[0] == "call" and atom[1].endswith("::eq") and mir.has_call(atom, r"MeetingSecret::public_key$") is not None:
                     same = truth
             txt = term_str(arg)
-            leaves = sorted(set(field_path(x) for x in mir.leaves(arg) if x[0] in ("var", "param", "upvar", "field")))
+            leaves = sorted(set(b.cpath(x) for x in mir.leaves(arg) if x[0] in ("var", "param", "upvar", "field")))
             if same is True:
-                ok = "diffie_hellman" not in txt and all(re.search(r"self(\.secret)?$", l) for l in leaves)
+                ok = "diffie_hellman" not in txt and all(re.search(r"^‹MeetingSecret›(\.secret)?$", l) for l in leaves)
                 C.ob("R7", "same-key-token", ok, b.loc(bi), "own key on both sides: token = hash(own secret): %s" % txt[:80])
             else:
                 dh = mir.has_call(arg, r"StaticSecret::diffie_hellman$")
-                ok = same is False and dh is not None and all(re.search(r"(self(\.secret)?|their_public)$", l) for l in leaves)
+                ok = same is False and dh is not None and all(re.search(r"^(‹MeetingSecret›(\.secret)?|‹PublicKey›)$", l) for l in leaves)
                 inner = [x for x in mir.subterms(arg) if x[0] == "call" and not re.search(r"diffie_hellman$|as_bytes$", x[1])]
                 ok = ok and not inner
                 C.ob("R7", "pair-token-is-shared-secret-only", ok, b.loc(bi), "token of two distinct keys = hash(x25519(own secret, their public)) and nothing else: %s" % txt[:90])
         cp = b.calls_to(r"copy_from_slice$")
-        ok = len(cp) == 1 and "hash" in term_str(b.call_args(cp[0][0])[1]) and "token" in term_str(b.call_args(cp[0][0])[0])
+        ok = len(cp) == 1 and mir.has_call(b.call_args(cp[0][0], expand_vars=True)[1], r"security::hash$") is not None and re.search(r"^\[u8; \d+\]$", mir.short_type(b.root_type(mir.strip(b.call_args(cp[0][0])[0])))) is not None
         C.ob("R7", "token-is-hash-prefix", ok, b.loc(cp[0][0]) if cp else b.loc(), "the token is a prefix of that hash")
     except mir.MissingAnchor as e:
         C.anchor_missing("R7", "MeetingSecret::token", e)
@@ -176,9 +202,10 @@ def run(P, C, tier):
                 # same variable
                 ua = b.call_args(bi)
                 uv = b.call_args(ver[0][0])
-                v1 = [x for x in mir.subterms(ua[1]) if x[0] == "var" and x[1] == "challenge"]
-                v2 = [x for x in mir.subterms(uv[1]) if x[0] == "var" and x[1] == "challenge"]
-                sent = sent and bool(v1) and bool(v2) and v1[0][2] == v2[0][2]
+                chal = b.find_locals(call=r"security::random32$")
+                v1 = [x for x in mir.subterms(ua[1]) if x[0] == "var" and x[1] in chal]
+                v2 = [x for x in mir.subterms(uv[1]) if x[0] == "var" and x[1] in chal]
+                sent = sent and len(chal) == 1 and bool(v1) and bool(v2) and v1[0][2] == v2[0][2]
     C.ob("R4", "challenge-sent-is-verified", sent, b.loc(), "Query::ProveIdentity carries a clone of the same `challenge` variable that is verified")
     C.ob("R4", "answer-is-query-result", mir.has_call(va[0], r"LocalPeerService::query$") is not None, b.loc(ver[0][0]), "the verified answer is the reply to that query")
     try:
@@ -189,7 +216,8 @@ def run(P, C, tier):
         if ok:
             a = iv.call_args(vs[0][0], expand_vars=True)
             k = mir.has_call(a[0], r"security::import_verifying_key$")
-            ok = k is not None and field_path(k[2][0]).endswith("self.peer.verifying_key") and field_path(a[1]) == "challenge" and field_path(a[2]).endswith("chall_signature")
+            chp = iv.find_locals(ty=r"(Vec<u8>|\[u8\])$", param=True)
+            ok = k is not None and field_path(k[2][0]).endswith("self.peer.verifying_key") and len(chp) == 1 and field_path(a[1]) == chp[0] and field_path(a[2]).endswith("self.chall_signature")
             re_ = mir.result_edges(iv, vs[0][0])
             ok = ok and re_ is not None and re_["via"] == "?"
         C.ob("R4", "answer-verified-under-presented-key", ok, iv.loc(), "verify(challenge, chall_signature) under import_verifying_key(self.peer.verifying_key), error propagated")
@@ -201,7 +229,7 @@ def run(P, C, tier):
         name = callee_name(t)
         if name.endswith("DerefMut>::deref_mut") or name.endswith("::deref_mut"):
             a = b.call_args(bi, expand_vars=True)
-            if mir.mentions(a[0], "remote_verifying_key"):
+            if is_remote_key(b, a[0]):
                 effects.append(("store-remote-key", bi))
         elif name.endswith("PeerConnectionService::invite_accepted"):
             effects.append(("invite_accepted", bi))
@@ -228,8 +256,8 @@ def run(P, C, tier):
             if st["lhs"][-1:] == ["*"] and len(st["lhs"]) == 2:
                 t = b.def_term(bi, si, st["rv"], 0)
                 d = b.local_term(st["lhs"][0], expand_vars=True)
-                if mir.has_call(d, r"deref_mut$") and mir.mentions(d, "remote_verifying_key"):
-                    C.ob("R1", "stored-key-is-proven-key:" + (token_arm(b, bi) or "-"), field_path(t).endswith("proof.peer.verifying_key"), "%s:%d" % (b.file, st["at"][0]), "remote key := %s" % field_path(t))
+                if mir.has_call(d, r"deref_mut$") and is_remote_key(b, d):
+                    C.ob("R1", "stored-key-is-proven-key:" + (token_arm(b, bi) or "-"), b.cpath(t) == PROVEN, "%s:%d" % (b.file, st["at"][0]), "remote key := %s" % b.cpath(t))
     # ---- R2
     for kind, bi in effects:
         if kind != "store-remote-key":
@@ -242,13 +270,13 @@ def run(P, C, tier):
             for s, vals, term in g:
                 atom, truth = mir.cond_atoms(term, vals)
                 if atom[0] == "call" and atom[1].endswith("::eq") and truth is True:
-                    ps = [field_path(x) for x in atom[2]]
-                    if any(p == "proof.peer.verifying_key" for p in ps):
-                        other = [x for x in atom[2] if field_path(x) != "proof.peer.verifying_key"]
+                    ps = [b.cpath(x) for x in atom[2]]
+                    if any(p == PROVEN for p in ps):
+                        other = [x for x in atom[2] if b.cpath(x) != PROVEN]
                         if other:
                             d = def1(b, other[0])
                             dec = mir.has_call(d, r"security::base64_decode$")
-                            if dec is not None and field_path(dec[2][0]).endswith("peer.peer.verifying_key"):
+                            if dec is not None and b.cpath(dec[2][0]) == "‹AllowedPeer›.peer.verifying_key":
                                 okeq = True
                                 sw = s
             refuse = False
@@ -266,7 +294,7 @@ def run(P, C, tier):
                 vb = vs[0][0]
                 a = b.call_args(vb)
                 k = mir.has_call(def1(b, a[0]), r"security::import_verifying_key$")
-                okk = k is not None and field_path(k[2][0]) == "proof.peer.verifying_key"
+                okk = k is not None and b.cpath(k[2][0]) == PROVEN
                 okh = mir.has_call(a[1], r"Invite::hash$") is not None and field_path(a[2]).endswith("invite_sign")
                 vok = ok_edge_block(b, vb)
                 ok = okk and okh and vok is not None and b.dominates(vok, bi)
